@@ -234,6 +234,19 @@ CHECKS["C12"] = {
     "assumptions": ["faults below the system-call interface (page cache, disk) are out of scope", "descriptors 0-2 are never faulted"],
     "extra_targets": TOOLS_WRAP,
     "runs": [
-        {"bin": "asan/C12", "cases": P(40, 700), "procs": P(8, 16), "size": 70, "shrink_budget": 40, "cpu_limit": 300},
+        {"bin": "asan/C12", "cases": P(100, 1500), "procs": P(8, 16), "size": 70, "shrink_budget": 40, "cpu_limit": 300},
+    ],
+}
+
+CHECKS["C18"] = {
+    "level": "exploration",
+    "technique": "three-way differential testing of the two hash back ends (whole library built twice as shared objects, -Bsymbolic + dlopen(RTLD_LOCAL), provenance asserted with dladdr) against OpenSSL one-shot digests: exhaustive over message lengths 0..300 x 4 digest types x contents x update segmentations + NIST vectors, random long messages/segmentations, and file-level write/validate/read cross-checks",
+    "level_text": "The bundled SHA code, which the repository's test configuration never compiles, is loaded next to the OpenSSL build in one process. All message lengths 0..300 (every block/padding edge of 64- and 128-byte blocks) are enumerated for every digest type with several contents and segmentations; random messages up to 1 MiB with random segmentations and complete files written through each build are compared as well. Exhaustive for the listed lengths, sampled beyond.",
+    "level_note": "Trusted: OpenSSL one-shot EVP_Digest as the third opinion, NIST vectors as constants. Single updates >= 4 GiB are not generated (the library never issues them: updates are bounded by the chunk maximum, an int).",
+    "rule": "digest case = (type, message, update cut points); non-trivial = message longer than one block (128 bytes) and more than one update. File case = (content, configuration, write history) with > 1000 bytes. Enumerated cases are distinct by construction, others by choice-sequence hash.",
+    "assumptions": ["OpenSSL's one-shot digests are correct"],
+    "extra_targets": ["so/ossl.so", "so/bundled.so"],
+    "runs": [
+        {"bin": "asan/C18", "cases": P(4000, 60000), "procs": P(8, 16), "size": 70, "shrink_budget": 200, "enum": True, "args": ["--no-fork"]},
     ],
 }
